@@ -245,6 +245,10 @@ func (h *harness) runCase(c *tcase, idx int, other []byte) caseResult {
 		other = trunc
 	}
 	cfs := configs(idx % 50)
+	if len(c.src) > 20000 && !h.r.Thorough {
+		// big inputs: a representative subset of the configurations in the quick tier
+		cfs = []config{cfs[0], cfs[3], cfs[7], cfs[9], cfs[13]}
+	}
 	files := &[3]string{}
 	for k, b := range [][]byte{c.src, other, trunc} {
 		files[k] = filepath.Join(h.dir, fmt.Sprintf("in%d_%d.bin", idx, k))
@@ -284,9 +288,14 @@ func (h *harness) runCase(c *tcase, idx int, other []byte) caseResult {
 		if pl == nil {
 			continue
 		}
-		for _, cf := range cfs {
-			cmd := c.cmd(cf, other, trunc, files)
-			ans := pl.ask(cmd)
+		cmds := make([]string, len(cfs))
+		for k, cf := range cfs {
+			cmds[k] = c.cmd(cf, other, trunc, files)
+		}
+		answers := pl.askMany(cmds)
+		for k, cf := range cfs {
+			cmd := cmds[k]
+			ans := answers[k]
 			if base == "" {
 				base, baseTail = ans, cf.tail
 				if strings.HasPrefix(ans, "st=ok") {
@@ -327,7 +336,7 @@ func (h *harness) runCase(c *tcase, idx int, other []byte) caseResult {
 					}
 				}
 				res.fails = append(res.fails, hlib.Failure{Key: key,
-					Desc: fmt.Sprintf("%s (%s): configuration %q in build %q answers\n  %s\nbut the base configuration (zeroed memory, default build) answers\n  %s", c.codec, c.label, cf.label, f.name, ans, base),
+					Desc:   fmt.Sprintf("%s (%s): configuration %q in build %q answers\n  %s\nbut the base configuration (zeroed memory, default build) answers\n  %s", c.codec, c.label, cf.label, f.name, ans, base),
 					Replay: fmt.Sprintf("# case %d of this seed/tier; feed to the c09drv binary of flavour %s (flags %v):\n%s\n# base, flavour default:\n%s", idx, f.name, f.flags, c.cmd(cf, other, trunc, nil), c.cmd(cfs[0], other, trunc, nil))})
 				if len(res.fails) > 3 {
 					return res
